@@ -1,0 +1,19 @@
+//go:build verif
+
+package stats
+
+// Contracts assumed by /verif/gvc. Comment-only file (build tag verif).
+
+// Internal-metrics sinks do not touch the state of the component that reports to them.
+//@ func (Statser).Gauge
+//@   trusted
+//@ func (Statser).Count
+//@   trusted
+//@ func (Statser).Increment
+//@   trusted
+//@ func (Statser).TimingMS
+//@   trusted
+//@ func (Statser).TimingDuration
+//@   trusted
+//@ func (Statser).Report
+//@   trusted
